@@ -14,8 +14,8 @@ All tokens are decimal integers.
           for blk/unblk the numbers are the chain state the generator's chain simulation expects afterwards;
           the implementation side prints what `Channel::get_chain_state` really returns, so the simulation is
           checked against the real ChainMonitor on every op.  `chain` and `blk`/`unblk` are not mixed in a case.
-  cp      <n> <pointVariant> <feerate> <toHolder> <toCp> <k> (<value> <expiry>)*k <m> (<value> <expiry>)*m
-  hold    <n> <feerate> <toHolder> <toCp> <k> (..)*k <m> (..)*m <sigsOk>
+  cp      <n> <pointVariant + 2*phase1> <feerate> <toHolder> <toCp> <k> (<value> <expiry>)*k <m> (<value> <expiry>)*m
+  hold    <n> <feerate> <toHolder> <toCp> <k> (..)*k <m> (..)*m <sigsOk + 2*phase1>
   revoke  <n>
   cprevoke <n>
   close2  <toHolder> <toCp> <hPresent> <sid> <len> <rank> <canSpend> <allowlisted> <cPresent> <sid> <len> <rank> <canSpend> <allowlisted>
@@ -81,6 +81,13 @@ def outs? : Nat → List Nat → List Out → Option (List Out × List Nat)
   | 0, rest, acc => some (acc.reverse, rest)
   | j + 1, v :: sid :: len :: rk :: cs :: al :: rest, acc => outs? j rest (⟨v, sid, len, rk, b cs, b al⟩ :: acc)
   | _ + 1, _, _ => none
+
+/-- can the harness build a real commitment transaction from these values (so that the phase-1 entry
+    points can be exercised)?  Same predicate on the Rust side (`c05_world.rs::buildable`). -/
+def buildable (s : Setup) (n th tc : Nat) (hs : List Htlc) : Bool :=
+  decide (n ≤ 281474976710655) && decide (th ≤ 2100000000000000) && decide (tc ≤ 2100000000000000) &&
+  hs.all (fun h => decide (h.value ≤ 2100000000000000) && decide (h.expiry ≤ 2147483647)) && decide (s.holderDelay ≤ 2016) && decide (s.cpDelay ≤ 2016) &&
+  (s.ctype == .staticRemoteKey || s.ctype == .anchorsZeroFeeHtlc)
 
 def digest (e : EState) : String :=
   s!"h={e.nextHolder} c={e.nextCp} r={e.nextRevoke} closed={if e.closed then 1 else 0} pend={if e.nextHolderInfo.isSome then 1 else 0}"
@@ -159,7 +166,7 @@ def step (st : St) (toks : List String) : St × String :=
           match htlcs? 1000 rest with
           | some (recv, []) =>
             let i : Info := Info.new true th tc off recv fr
-            applyRes st (signCounterparty st.policy st.setup st.chain st.es n (2 * n + pv) i)
+            applyRes st (signCounterparty st.policy st.setup st.chain st.es n (2 * n + pv % 2) i)
           | _ => (st, "bad-op")
       | "hold", n :: fr :: th :: tc :: rest =>
         if !st.ready then (st, "nochan") else
@@ -167,9 +174,13 @@ def step (st : St) (toks : List String) : St × String :=
         | none => (st, "bad-op")
         | some (off, rest) =>
           match htlcs? 1000 rest with
-          | some (recv, [sigok]) =>
+          | some (recv, [flag]) =>
             let i : Info := Info.new false tc th off recv fr
-            applyRes st (validateHolderPhase2 st.policy st.setup st.chain st.es n i (b sigok))
+            -- bit 0: good signatures; bit 1: phase-1 entry point (used only when the harness can build the tx)
+            if flag ≥ 2 && buildable st.setup n th tc (off ++ recv) then
+              applyRes st (validateHolderPhase1 st.policy st.setup st.chain st.es n i (b (flag % 2)))
+            else
+              applyRes st (validateHolderPhase2 st.policy st.setup st.chain st.es n i (b (flag % 2)))
           | _ => (st, "bad-op")
       | "revoke", [n] =>
         if !st.ready then (st, "nochan") else applyRes st (revokeHolder st.policy st.es n)
